@@ -176,6 +176,28 @@ MUTATIONS = {
         new="                style_args = self._check_style_args(style)\n"
             "                style_args, type(self)._carry = {**getattr(type(self), \"_carry\", {}), **style_args}, style_args\n",
     ),
+    "x10-style-args-accumulate-in-module-global": dict(
+        # the memory lives where no attribute snapshot sees it: only the behaviour of later calls shows it
+        file="image/common.py",
+        old=DRAW_CHECK,
+        new="                style_args = self._check_style_args(style)\n"
+            "                style_args = {**_STYLE_CARRY, **style_args}\n"
+            "                _STYLE_CARRY.update(style_args)\n",
+        more=[dict(file="image/common.py", old="_TEMP_DIR = mkdtemp()\n",
+                   new="_TEMP_DIR = mkdtemp()\n_STYLE_CARRY: dict = {}\n")],
+    ),
+    "x10-style-args-carried-into-next-call-only": dict(
+        # ... and only the NEXT draw sees the arguments of the previous one
+        file="image/common.py",
+        old=DRAW_CHECK,
+        new="                style_args = self._check_style_args(style)\n"
+            "                carried = dict(style_args)\n"
+            "                style_args = {**_STYLE_CARRY, **style_args}\n"
+            "                _STYLE_CARRY.clear()\n"
+            "                _STYLE_CARRY.update(carried)\n",
+        more=[dict(file="image/common.py", old="_TEMP_DIR = mkdtemp()\n",
+                   new="_TEMP_DIR = mkdtemp()\n_STYLE_CARRY: dict = {}\n")],
+    ),
     "x10-check-remembers-last-args": dict(
         file="image/common.py",
         old=CHECK_TAIL,
